@@ -29,7 +29,7 @@ RULE = (
 ASSUMPTIONS = [
     "'registered twin' is decided against all nodes the case built (own bookkeeping of detaches), not pyoak's registry",
 ]
-FLOORS = {"cases:twin-registered": 0.2, "cases:subject-detached": 0.12, "cases:tuple-child": 0.3}
+FLOORS = {"cases:twin-registered": 0.2, "cases:subject-detached": 0.12, "cases:tuple-child": 0.15}
 
 CHANGES = ["prop", "noncompare", "child", "tuple", "origin"]
 
@@ -50,17 +50,18 @@ def _make_change(x: Any, kind: str, n: int, sources: list) -> dict | None:
         return None
     if kind == "noncompare":
         return {"nc": x.nc + "~"} if "nc" in fs else None
+    cn = type(x).__name__
     if kind == "child":
-        for name in ("one", "child", "opt", "ka"):
-            if name in fs:
-                return {name: M.cls("LeafB")(v=50 + n % 3)}
+        for f in M.child_fields(cn) if cn in M.BY_NAME else []:
+            if f.kind in ("one", "opt") and "Base" in f.classes:
+                return {f.name: M.cls("LeafB")(v=50 + n % 3)}
         return None
     if kind == "tuple":
-        for name in ("items", "more"):
-            if name in fs:
-                cur = getattr(x, name)
+        for f in M.child_fields(cn) if cn in M.BY_NAME else []:
+            if f.kind == "tuple":
+                cur = getattr(x, f.name)
                 new = M.cls("LeafA")(v=60 + n % 3)
-                return {name: (cur[1:] + (new,)) if n % 2 and cur else (new, *cur)}
+                return {f.name: (cur[1:] + (new,)) if n % 2 and cur else (new, *cur)}
         return None
     if kind == "origin":
         cands = [["code", 1, 2, 5], ["gen", 2], ["xml", 3, "/z"], ["no"]]
@@ -86,8 +87,10 @@ def check_case(data: dict, lab: Labels) -> None:
     b, root_e, ex = T.build(spec)
     sources = b.sources
     nodes_e = T.nodes_preorder(root_e)
-    want = {"noncompare": ("Vals", "SerVals"), "child": ("Uni", "Mixed", "InhMixed"),
-            "tuple": ("Mixed", "InhMixed", "Seq")}.get(CHANGES[data["c1"] % len(CHANGES)])
+    want = {"noncompare": ("Vals", "SerVals"),
+            "child": tuple(c.name for c in M.TABLE if any(f.kind in ("one", "opt") and "Base" in f.classes for f in M.child_fields(c.name))),
+            "tuple": tuple(c.name for c in M.TABLE if any(f.kind == "tuple" for f in M.child_fields(c.name))),
+            }.get(CHANGES[data["c1"] % len(CHANGES)])
     cands = [e for e in nodes_e if want and e.cls in want] if data["op"] != "duplicate" else \
         [e for e in nodes_e if any(True for _ in e.children())]
     if not cands or data["subject"] % 5 == 0:
